@@ -63,6 +63,9 @@ func c14Axes() c14Axis {
 		ax.verbs = append(ax.verbs, []byte{c})
 	}
 	ax.verbs = append(ax.verbs, []byte("é"), []byte("×"), []byte(startS), []byte{0xff})
+	// verbs that are congruent to a letter modulo 256 / 65536 (a narrowing
+	// conversion or a byte-indexed table would take them for that letter)
+	ax.verbs = append(ax.verbs, []byte(string(rune('v'+0x100))), []byte(string(rune('s'+0x7500))), []byte(string(rune('d'+0x10000))))
 	return ax
 }
 
@@ -117,7 +120,7 @@ func TestEnumC14(t *testing.T) {
 	if failed != nil {
 		enumFail(t, "C14Fwd", failed, failErr)
 	}
-	col.Exhaustive("C14Fwd(enum)", fmt.Sprintf("complete product: %d flag subsets x %d widths (absent, 1, 7, 12, 1000, *=-7, *=0, *=5) x %d precisions (absent, '.', 0, 1, 5, *=0, *=3) x %d verbs (52 ASCII letters, 3 multi-byte runes, an invalid byte = U+FFFD) x %d operand kinds, each under fmt's State and under redact's printer",
+	col.Exhaustive("C14Fwd(enum)", fmt.Sprintf("complete product: %d flag subsets x %d widths (absent, 1, 7, 12, 1000, *=-7, *=0, *=5) x %d precisions (absent, '.', 0, 1, 5, *=0, *=3) x %d verbs (52 ASCII letters, 3 multi-byte runes, 3 runes congruent to a letter modulo 256 or 65536, an invalid byte = U+FFFD) x %d operand kinds, each under fmt's State and under redact's printer",
 		len(ax.flags), len(ax.widths), len(ax.precs), len(ax.verbs), nop))
 }
 
@@ -145,6 +148,18 @@ func TestC14Fwd(t *testing.T) {
 			s.Dir.Prec = "."
 		}
 		s.Dir.Verb = ax.verbs[rapid.IntRange(0, len(ax.verbs)-1).Draw(rt, "verb")]
+		switch rapid.IntRange(0, 7).Draw(rt, "runeverb") {
+		case 0: // any rune
+			s.Dir.Verb = B(string(rapid.Rune().Draw(rt, "anyverb")))
+		case 1: // a rune congruent to an ASCII letter modulo 256 or 65536
+			l := rune(pick(rt, "letter", []string{"v", "s", "d", "x", "q", "X", "t", "e", "p", "T", "U", "c", "w", "L", "B"})[0])
+			if rapid.Bool().Draw(rt, "hi") {
+				l += rune(rapid.IntRange(1, 16).Draw(rt, "plane")) << 16
+			} else {
+				l += rune(rapid.IntRange(1, 255).Draw(rt, "page")) << 8
+			}
+			s.Dir.Verb = B(string(l))
+		}
 		if (s.Dir.Width == "*" || s.Dir.Prec == ".*") && rapid.IntRange(0, 9).Draw(rt, "oddverb") == 4 {
 			// after a '*' fmt takes the next byte as the verb whatever it is: a
 			// digit, a flag character, '*'
